@@ -27,8 +27,18 @@ C = {
          "event of another action instance than the one the statement carries, or across Finished / Failed / Started flow events",
          "name / instance / priority rules of _compute_event_comparison_score", "floats are reals; regex engine and comparison operators uninterpreted; "
          "statement-silent zone (1/True/1.0, regex vs non-string) excluded by the `typed` precondition"),
- "C05": (None, "competing flows through the real interpreter with every tie-break outcome enumerated (random.choice scripted) + contract monitor on "
-               "_resolve_action_conflicts: one most-specific action per loop, losers fail, identical actions shared, loops independent", "bounds in evidence"),
+ "C05": ("_resolve_action_conflicts piece by piece (block contracts on the real statements, ghost traces of the events generated / flows aborted): the heads are "
+         "partitioned by the interaction loop of their flow (GROUP); the winner of a group is a head of the group whose 1.0-padded score chain is "
+         "lexicographically largest - for every group, every chain and every outcome of random.choice (SELECT, with the sort key lambda and the tie "
+         "prefix under contract); exactly one action event, the winner's, is generated per group (WIN); every other head of the group either advances "
+         "without a second action event (same event), is moved to its catch label, or has exactly its own flow handed to _abort_flow (STEP); a "
+         "co-winner's references are redirected to the winner's action (REDIR / LOOP)",
+         "competing flows through the real interpreter with every tie-break outcome enumerated (random.choice scripted) + contract monitor on "
+         "_resolve_action_conflicts: one most-specific action per loop, losers fail, identical actions shared, loops independent",
+         "A-SORTED: sorted(key=..., reverse=...) orders by the key (the key lambda itself is verified: 1.0-padded chain) and Python compares float "
+         "lists lexicographically; ghost first-difference function fd (definitional axioms); A-EVENT / A-ABORT / A-POS-SETTER / A-ACTIONABLE / "
+         "A-REGISTERED (callees of the per-head step are assumed by frame); the composition of the blocks over the two loops of the function, the "
+         "single-head shortcut and what _abort_flow then does are bounded only"),
  "C06": ("the step at which a flow that ends lets go of one of its actions (body of the action loop of _abort_flow and of _finish_flow, block "
          "contracts; Action.stop_event): an action that is STARTING / STARTED and held by this flow alone gets exactly one event, its own Stop "
          "(`Stop<name>`, same action_uid); one that another flow still holds only loses a reference (no event, status kept); one that was never "
